@@ -237,6 +237,11 @@ class QGen:
         if k < 0.80:
             c = self.obj_bool(o, etype, depth - 1)
             a, _ = self.obj_num(o, etype, depth - 1, want="double")
+            if r.random() < 0.3:
+                m = r.choice(DOUBLE_METHODS)
+                b2, _ = self.obj_num(o, etype, depth - 1)
+                self.shape.append("oifexp_ladder")
+                return f"(({a} if {c} else {r.choice(FLOATS)} if {o}.{m}() > {r.choice(FLOATS)} else {r.choice(FLOATS)}) {r.choice(['*', '+'])} {b2})", "double"
             self.shape.append("ifexp")
             return f"({a} if {c} else {r.choice(FLOATS)})", "double"
         if r.random() < 0.2:
@@ -406,6 +411,41 @@ class QGen:
             if r.random() < 0.6:
                 txt = f"({txt} {r.choice(['/', '*', '+'])} {r.choice(['1000.0', '2.0', '0.5'])})"
             return txt, "double"
+        if depth > 0 and r.random() < 0.06:
+            # a ladder of conditionals (scale-factor style) used INSIDE a larger expression, followed by something that
+            # needs code of its own (another collection, an aggregate, a user function)
+            s_, et = self.seq_of_obj(evar, 0, allow_where=False)
+            was = self.uncond
+            self.uncond = False
+            rest, _ = self.evt_num(evar, depth - 1)
+            self.uncond = was
+            n1, n2 = r.choice([("2", "1"), ("1", "0"), ("3", "1")])
+            ladder = f"({r.choice(['1.5', '2.0'])} if {s_}.Count() > {n1} else {r.choice(['1.2', '0.5'])} if {s_}.Count() > {n2} else {r.choice(['1.0', '0.0'])})"
+            self.shape.append("ifexp_ladder")
+            if r.random() < 0.7:
+                return f"({ladder} {r.choice(['*', '+', '-'])} {rest})", "double"
+            return f"({rest} {r.choice(['*', '+'])} {ladder})", "double"
+        if depth > 0 and r.random() < 0.06:
+            # an aggregate over a sequence of sequences counts the OUTER elements
+            s, et = self.seq_of_obj(evar, 0, allow_where=r.random() < 0.4)
+            v, t = self.var("j"), self.var("t")
+            was = self.uncond
+            self.uncond = False
+            kk = r.random()
+            if kk < 0.4:
+                m = r.choice(["cvals", "ivals"])
+                self.declare(et, m)
+                inner = f"{v}.{m}().Select(lambda {t}: {t} * 2)"
+            elif kk < 0.7 and not s.startswith(f"{evar}.") is False and ".Where(" not in s:
+                s2, et2 = self.seq_of_obj(evar, 0, allow_where=False)
+                inner = f"{s2}.Select(lambda {t}: {t}.{r.choice(DOUBLE_METHODS)}())"
+            else:
+                self.declare(et, "subs")
+                t = self.var("sub")
+                inner = f"{v}.subs().Select(lambda {t}: {t}.{r.choice(DOUBLE_METHODS)}())"
+            self.uncond = was
+            self.shape.append("count2d")
+            return f"{s}.Select(lambda {v}: {inner}).Count()", "int"
         if k < 0.30 or depth <= 0:
             s, _ = self.seq_of_obj(evar, depth)
             self.shape.append("count")
